@@ -222,6 +222,34 @@ def run(res, tier):
     res.count("tus", len(tus))
     frame_pass(res, tus)
     threadlock_shape(res)
+    if tier == "thorough":
+        # first-party C++ callers of the frame API outside src/engine (plugins); mju_dispatch is decided under C02.
+        # The TU list is selected by a text scan, the verdict comes from the AST.
+        import os
+        from .. import cfront, r_frame as _rf
+        extra = []
+        for root, dn, fn_ in os.walk(os.path.join(cfront.REPO, "plugin")):
+            for f in fn_:
+                if f.endswith(".cc"):
+                    pth = os.path.join(root, f)
+                    try:
+                        txt = open(pth, errors="replace").read()
+                    except OSError:
+                        continue
+                    if "mj_markStack" in txt or "mj_stackAlloc" in txt or "mjSTACKALLOC" in txt:
+                        extra.append(os.path.relpath(pth, cfront.REPO))
+        res.count("cxx_plugin_tus", len(extra))
+        for tu in sorted(extra):
+            u = engine.unit(tu)
+            for name, s_ in sorted(_rf.analyse_unit(u).items()):
+                if not (s_["marks"] or s_["frees"] or s_["alloc0"] or s_["alloc_ok"]):
+                    continue
+                bad = list(s_["reports"]) + [{"file": s_["file"], "line": l, "msg": f"{p_} outside any frame"} for l, p_ in s_["alloc0"]]
+                if bad:
+                    for b in bad:
+                        res.bad("R-FRAME", f"{name}:{b.get('kind', 'F3')}", b["file"], b["line"], b["msg"])
+                else:
+                    res.ok("R-FRAME", f"{tu}:{name}", {"marks": len(s_["marks"]), "frees": len(s_["frees"])})
     # arena null discipline (shared with C20)
     out, producers, clr, rounds = c20.nullable_pass(res)
     res.rule("R-NULLABLE", "every arena allocation result is null-tested (that value) before use", floor=c20.FLOOR_SITES)
